@@ -578,7 +578,9 @@ impl<K: Kmer, D: Debug> DebruijnGraph<K, D> {
         }
 
         for (target, dir, _) in node.r_edges() {
-            if target > node.node_id as usize {
+            // a right-side hairpin (right end to own right end) is only visible from here
+            let right_hairpin = target == node.node_id as usize && matches!(dir, Dir::Right);
+            if target > node.node_id as usize || right_hairpin {
                 let to_dir = match dir {
                     Dir::Left => "+",
                     Dir::Right => "-",
